@@ -206,15 +206,15 @@ func formatArrayLiteral(val interface{}) string {
 					val := lit.Value.(float64)
 					parts = append(parts, fmt.Sprintf("Float64_%s", FormatFloat(-val)))
 				} else {
-					parts = append(parts, formatExprAsString(e))
+					parts = append(parts, formatExprCanonical(e))
 				}
 			} else {
-				parts = append(parts, formatExprAsString(e))
+				parts = append(parts, formatExprCanonical(e))
 			}
 		} else if ident, ok := e.(*ast.Identifier); ok {
 			parts = append(parts, ident.Name())
 		} else {
-			parts = append(parts, formatExprAsString(e))
+			parts = append(parts, formatExprCanonical(e))
 		}
 	}
 	return fmt.Sprintf("Array_[%s]", strings.Join(parts, ", "))
@@ -271,7 +271,7 @@ func formatTupleLiteral(val interface{}) string {
 		} else if ident, ok := e.(*ast.Identifier); ok {
 			parts = append(parts, ident.Name())
 		} else {
-			parts = append(parts, formatExprAsString(e))
+			parts = append(parts, formatExprCanonical(e))
 		}
 	}
 	return fmt.Sprintf("Tuple_(%s)", strings.Join(parts, ", "))
@@ -288,7 +288,7 @@ func formatInListAsTuple(list []ast.Expression) string {
 		} else if ident, ok := e.(*ast.Identifier); ok {
 			parts = append(parts, ident.Name())
 		} else {
-			parts = append(parts, formatExprAsString(e))
+			parts = append(parts, formatExprCanonical(e))
 		}
 	}
 	return fmt.Sprintf("Tuple_(%s)", strings.Join(parts, ", "))
@@ -564,8 +564,22 @@ func UnaryOperatorToFunction(op string) string {
 	}
 }
 
-// formatExprAsString formats an expression as a string literal for :: cast syntax
-func formatExprAsString(expr ast.Expression) string {
+// formatExprAsString formats an expression as the text of a string literal for :: cast syntax, reproducing the
+// spacing of array / tuple literals as written (ClickHouse keeps the source text of a :: operand)
+func formatExprAsString(expr ast.Expression) string { return formatExprText(expr, true) }
+
+// formatExprCanonical is the same text with canonical spacing: used where the text is part of a Literal line that is
+// not a :: operand, which must not depend on the layout of the source
+func formatExprCanonical(expr ast.Expression) string { return formatExprText(expr, false) }
+
+func formatArrayAsStringFromLiteral(lit *ast.Literal) string { return formatArrayText(lit, true) }
+
+func formatTupleAsStringFromLiteral(lit *ast.Literal) string { return formatTupleText(lit, true) }
+
+func formatElementAsString(expr ast.Expression) string { return formatElementText(expr, true) }
+
+// formatExprText: see formatExprAsString / formatExprCanonical
+func formatExprText(expr ast.Expression, layout bool) string {
 	switch e := expr.(type) {
 	case *ast.Literal:
 		// Handle explicitly negative literals (like -0 in -0::Int16)
@@ -614,9 +628,9 @@ func formatExprAsString(expr ast.Expression) string {
 		case ast.LiteralNull:
 			return "NULL"
 		case ast.LiteralArray:
-			return formatArrayAsStringFromLiteral(e)
+			return formatArrayText(e, layout)
 		case ast.LiteralTuple:
-			return formatTupleAsStringFromLiteral(e)
+			return formatTupleText(e, layout)
 		default:
 			return fmt.Sprintf("%v", e.Value)
 		}
@@ -626,28 +640,28 @@ func formatExprAsString(expr ast.Expression) string {
 		// Format function call as name(args)
 		var args []string
 		for _, arg := range e.Arguments {
-			args = append(args, formatExprAsString(arg))
+			args = append(args, formatExprText(arg, layout))
 		}
 		return e.Name + "(" + strings.Join(args, ", ") + ")"
 	case *ast.BinaryExpr:
 		// Format binary expression as left op right
-		left := formatExprAsString(e.Left)
-		right := formatExprAsString(e.Right)
+		left := formatExprText(e.Left, layout)
+		right := formatExprText(e.Right, layout)
 		return left + " " + e.Op + " " + right
 	case *ast.UnaryExpr:
 		// Format unary expression (prefix operators)
-		operand := formatExprAsString(e.Operand)
+		operand := formatExprText(e.Operand, layout)
 		return e.Op + operand
 	case *ast.InExpr:
 		// Format IN expression as expr IN (...)
-		exprStr := formatExprAsString(e.Expr)
+		exprStr := formatExprText(e.Expr, layout)
 		var listStr string
 		if e.Query != nil {
 			listStr = "(SELECT ...)" // Simplified for nested queries
 		} else if len(e.List) > 0 {
 			var parts []string
 			for _, item := range e.List {
-				parts = append(parts, formatExprAsString(item))
+				parts = append(parts, formatExprText(item, layout))
 			}
 			listStr = "(" + strings.Join(parts, ", ") + ")"
 		}
@@ -666,21 +680,21 @@ func formatExprAsString(expr ast.Expression) string {
 
 // formatArrayAsStringFromLiteral formats an array literal as a string for :: cast syntax
 // It preserves original spacing from the source
-func formatArrayAsStringFromLiteral(lit *ast.Literal) string {
+func formatArrayText(lit *ast.Literal, layout bool) string {
 	exprs, ok := lit.Value.([]ast.Expression)
 	if !ok {
 		return "[]"
 	}
 	var parts []string
 	for _, e := range exprs {
-		parts = append(parts, formatElementAsString(e))
+		parts = append(parts, formatElementText(e, layout))
 	}
 	separator := ","
-	if lit.SpacedCommas {
+	if layout && lit.SpacedCommas {
 		separator = ", "
 	}
 	// Use outer spaces when source had whitespace after [ (e.g., for multi-line arrays)
-	if lit.SpacedBrackets {
+	if layout && lit.SpacedBrackets {
 		return "[ " + strings.Join(parts, separator) + " ]"
 	}
 	return "[" + strings.Join(parts, separator) + "]"
@@ -694,24 +708,24 @@ func formatArrayAsString(val interface{}) string {
 	}
 	var parts []string
 	for _, e := range exprs {
-		parts = append(parts, formatElementAsString(e))
+		parts = append(parts, formatElementText(e, false))
 	}
 	return "[" + strings.Join(parts, ", ") + "]"
 }
 
 // formatTupleAsStringFromLiteral formats a tuple literal as a string for :: cast syntax
 // respecting the SpacedCommas flag to preserve original formatting
-func formatTupleAsStringFromLiteral(lit *ast.Literal) string {
+func formatTupleText(lit *ast.Literal, layout bool) string {
 	exprs, ok := lit.Value.([]ast.Expression)
 	if !ok {
 		return "()"
 	}
 	var parts []string
 	for _, e := range exprs {
-		parts = append(parts, formatElementAsString(e))
+		parts = append(parts, formatElementText(e, layout))
 	}
 	separator := ","
-	if lit.SpacedCommas {
+	if layout && lit.SpacedCommas {
 		separator = ", "
 	}
 	return "(" + strings.Join(parts, separator) + ")"
@@ -725,13 +739,13 @@ func formatTupleAsString(val interface{}) string {
 	}
 	var parts []string
 	for _, e := range exprs {
-		parts = append(parts, formatElementAsString(e))
+		parts = append(parts, formatElementText(e, false))
 	}
 	return "(" + strings.Join(parts, ", ") + ")"
 }
 
 // formatElementAsString formats a single element for array/tuple string representation
-func formatElementAsString(expr ast.Expression) string {
+func formatElementText(expr ast.Expression, layout bool) string {
 	switch e := expr.(type) {
 	case *ast.Literal:
 		switch e.Type {
@@ -762,9 +776,9 @@ func formatElementAsString(expr ast.Expression) string {
 		case ast.LiteralNull:
 			return "NULL"
 		case ast.LiteralArray:
-			return formatArrayAsStringFromLiteral(e)
+			return formatArrayText(e, layout)
 		case ast.LiteralTuple:
-			return formatTupleAsStringFromLiteral(e)
+			return formatTupleText(e, layout)
 		default:
 			return fmt.Sprintf("%v", e.Value)
 		}
@@ -774,19 +788,19 @@ func formatElementAsString(expr ast.Expression) string {
 		// Format function call as name(args)
 		var args []string
 		for _, arg := range e.Arguments {
-			args = append(args, formatElementAsString(arg))
+			args = append(args, formatElementText(arg, layout))
 		}
 		return e.Name + "(" + strings.Join(args, ", ") + ")"
 	case *ast.BinaryExpr:
 		// Format binary expression as left op right
-		left := formatElementAsString(e.Left)
-		right := formatElementAsString(e.Right)
+		left := formatElementText(e.Left, layout)
+		right := formatElementText(e.Right, layout)
 		return left + " " + e.Op + " " + right
 	case *ast.UnaryExpr:
 		// Format unary expression (prefix operators)
-		operand := formatElementAsString(e.Operand)
+		operand := formatElementText(e.Operand, layout)
 		return e.Op + operand
 	default:
-		return formatExprAsString(expr)
+		return formatExprText(expr, layout)
 	}
 }
